@@ -14,6 +14,9 @@ C07 — line-protocol driver of the models (core only).  One op per line, one an
   wal <stale> <data> <tbl>       → recs <ty>:<payload> … eof   (replayWalFile loop over `data`, the reader's pooled
                                    buffer holding `stale`; tbl = comp:payload:rowsok,… is the snappy /
                                    row-unmarshal oracle observed by the harness; `-` = empty)
+  str <ty> <clen> <s1,s2,…|_>    → ok <hex bytes>              (EncodeStringBlock with compressor `ty`;
+                                   strings in hex, `-` = empty string, `_` = no strings)
+  strdec <hex bytes>             → strs <data> <offsets> | err (DecodeStringBlock, uncompressed frames)
   booldec <hex bytes>            → bits <0/1 string | -> | err (Boolean.Decoding)
 
 `zlen` is the observed length of the zstd (snappy, …) payload for the block's raw bytes: the
@@ -25,6 +28,7 @@ import OG.C07.TimeBlock
 import OG.C07.Bool
 import OG.C07.FloatFrame
 import OG.C07.Wal
+import OG.C07.StringFrame
 
 namespace OG.C07
 
@@ -181,6 +185,15 @@ def stepWal (stale data : Bytes) (tbl : List (Bytes × Bytes × Bool)) : String 
   recs.foldl (fun acc (ty, body) => acc ++ toString ty ++ ":" ++ (if body.isEmpty then "-" else bytesHex body) ++ " ")
     "recs " ++ "eof"
 
+def parseStrs (s : String) : Option (List Bytes) :=
+  if s == "_" then some [] else (s.splitOn ",").mapM hexBytes?
+
+def stepStr (ty clen : Nat) (strs : List Bytes) : String :=
+  let bs := encodeStrings ty (dummy clen) strs
+  match bs with
+  | t :: _ => if t.toNat / 16 ≠ OG.Gen.C07.stringUncompressed then showFrame 9 bs else showBytes bs
+  | [] => showBytes bs
+
 def step (line : String) : String :=
   let (op, rest) := splitOp line
   match op with
@@ -252,6 +265,22 @@ def step (line : String) : String :=
       | some st, some da, some tb => stepWal st da tb
       | _, _, _ => "bad-op"
     | _ => "bad-op"
+  | "str" =>
+    match takeNats 2 rest with
+    | some ([ty, cl], r) =>
+      match parseStrs r with
+      | some strs => if ty = 1 ∨ ty = 2 ∨ ty = 3 then stepStr ty cl strs else "bad-op"
+      | none => "bad-op"
+    | _ => "bad-op"
+  | "strdec" =>
+    match hexBytes? rest with
+    | none => "bad-op"
+    | some bs =>
+      match decodeStrings (fun _ _ => none) bs with
+      | none => "err"
+      | some (data, offs) =>
+        "strs " ++ (if data.isEmpty then "-" else bytesHex data) ++ " "
+          ++ (if offs.isEmpty then "-" else ",".intercalate (offs.map toString))
   | "bool" =>
     if rest == "-" then showBytes (encodeBool [])
     else if rest.any (fun c => c ≠ '0' ∧ c ≠ '1') then "bad-op"
